@@ -252,7 +252,7 @@ static int replay_mode;
 static int client_gate (int t) {
 	struct op *o;
 	int i, started = 0;
-	if (replay_mode) return 1;              /* the specification decides when a gate opens */
+	if (replay_mode || rp_in_prefix) return 1;              /* the specification decides when a gate opens */
 	if (S.ip[t] >= S.nops[t]) return 1;
 	o = &S.prog[t][S.ip[t]];
 	if (o->op != O_GATE) return 1;
@@ -631,6 +631,15 @@ int main (int argc, char **argv) {
 		rp_print_ord (stdout);
 		printf ("MAXSLEEPS %d\n", maxsleeps);
 		return st.violations ? 1 : 0;
+	}
+	if (!strcmp (argv[1], "from") && argc >= 5) {
+		/* continue a saved divergence prefix with random schedules */
+		FILE *f = fopen (argv[2], "r");
+		long v;
+		if (!f) { perror (argv[2]); return 2; }
+		v = rp_explore_from (f, &h, atol (argv[3]), (unsigned) atol (argv[4]), argc > 5 ? argv[5] : NULL, prop, victim_done, 6000);
+		printf ("MAXSLEEPS %d\n", maxsleeps);
+		return v ? 1 : 0;
 	}
 	if (!strcmp (argv[1], "adversary") && argc >= 3) return run_adversary (argv[2], argc > 3 ? argv[3] : NULL, prop);
 	if (!strcmp (argv[1], "climb") && argc >= 5) return run_climb (atol (argv[2]), (unsigned) atol (argv[3]), argv[4], argc > 5 ? argv[5] : NULL, prop);
